@@ -76,6 +76,9 @@ type resolveRec struct {
 }
 
 func run(t *testing.T, tape *simrt.Tape) *hx.Outcome {
+	if tape.Draw("cfg.campaign", 4) == 0 { // own stream: older tapes replay unchanged
+		return runDaemon(t, tape)
+	}
 	out := &hx.Outcome{Counters: map[string]int{}}
 	d := func(n int) int { return tape.Draw("gen", n) }
 	nLayers := 1 + d(3)
@@ -449,11 +452,11 @@ func run(t *testing.T, tape *simrt.Tape) *hx.Outcome {
 func TestC12(t *testing.T) {
 	hx.Main(t, hx.Prop{
 		ID:   "C12",
-		Rule: "each run draws 1-3 layers, 2-4 holder tasks doing 1-3 rounds of Resolve / Verify / RootNode / 1-5 operations (file reads through nodes, blob ReadAt, Check, Refresh, idling for up to 2x TTL) / Done or Close, a resolve TTL of 2-5 s, a connectivity-check interval of 1 s / 3 s / 10 min, memory or directory caches, memory or db metadata store; in the non-calm half the registry fails, stalls, delays, expires redirect URLs and goes down and up again. Oracles: a holder that has not released never sees an 'already closed' error nor wrong bytes (and no error at all when the registry is calm and reachable); overlapping resolves of one layer return the same instance (calm runs); after everything is released and 2x TTL passed the fscache/httpcache directories hold no file, the metadata database has no filesystem bucket, no file descriptor is left, and a new Resolve contacts the registry and works. non-trivial = more than one resolve and either an idle period or a non-calm registry; distinct = schedule hash x configuration",
+		Rule: "each run draws 1-3 layers, 2-4 holder tasks doing 1-3 rounds of Resolve / Verify / RootNode / 1-5 operations (file reads through nodes, blob ReadAt, Check, Refresh, idling for up to 2x TTL) / Done or Close, a resolve TTL of 2-5 s, a connectivity-check interval of 1 s / 3 s / 10 min, memory or directory caches, memory or db metadata store; in the non-calm half the registry fails, stalls, delays, expires redirect URLs and goes down and up again. Oracles: a holder that has not released never sees an 'already closed' error nor wrong bytes (and no error at all when the registry is calm and reachable); overlapping resolves of one layer return the same instance (calm runs); after everything is released and 2x TTL passed the fscache/httpcache directories hold no file, the metadata database has no filesystem bucket, no file descriptor is left, and a new Resolve contacts the registry and works. Holders now and then start Prefetch / BackgroundFetch on the layer they hold (as fs.Mount does), so that cache writes are in flight when the layer is released; the audit also requires that the per-layer cache directories themselves are gone. A quarter of the runs is the 'daemon' campaign: the holders are MOUNTS made through the real filesystem (fs/fs.go Mount with source labels: resolution, pre-resolution and release of neighbouring layers, verification, prefetch, background fetch; Check; Unmount) at private mountpoints over 1-3 layers of one image, FUSE mounting may fail; a live mount never fails because something is closed, never returns wrong bytes (no error at all when calm), a failed Mount leaves no FUSE mount, after all unmounts the kernel table is empty and, 2x TTL + 45 s later, both cache directories are empty, and mounting again contacts the registry and works. non-trivial = more than one resolve and either an idle period or a non-calm registry; distinct = schedule hash x configuration",
 		Run:  run,
 		PanicIsViolation: true,
 		HangIsViolation:  true,
-		Components: map[string]string{"fs/layer Resolver (TTL caches, resolve lock, refcounts), layer, fs/remote blob, fs/reader, cache, util/cacheutil, util/namedmutex": "real (instrumented copy)", "metadata stores": "real", "registry": "stub (simreg; outages)", "clock": "simulated"},
+		Components: map[string]string{"fs/layer Resolver (TTL caches, resolve lock, refcounts), layer, fs/remote blob, fs/reader, cache, util/cacheutil, util/namedmutex": "real (instrumented copy)", "metadata stores": "real", "registry": "stub (simreg; outages)", "clock": "simulated", "fs.filesystem (fs/fs.go: Mount / Check / Unmount, mountpoint table) in the daemon campaign": "real (instrumented copy); only the kernel side of FUSE is a stub (seam in package fs)"},
 		Assumptions: []string{"instance identity is observed through a harness-only accessor added to the instrumented copy of package fs/layer", "memory caches cannot be inspected; resource release is judged on directories, the bolt file and file descriptors"},
 	})
 }
